@@ -264,8 +264,14 @@ func (h *baseHandler) handleOptions(options map[string]string) {
 			h.plain = true
 		}
 		if serverless := options["serverless"]; serverless == "true" {
-			dlog.Server.Debug(h.user, "Enabling serverless mode")
-			h.serverless = true
+			// The option comes from the peer: a remote session must not be able
+			// to switch the server to serverless behaviour (reading its stdin).
+			if h.user.Serverless() {
+				dlog.Server.Debug(h.user, "Enabling serverless mode")
+				h.serverless = true
+			} else {
+				dlog.Server.Warn(h.user, "Ignoring serverless option of a remote session")
+			}
 		}
 	})
 }
